@@ -474,13 +474,76 @@ def r10_3(repo: Repo) -> RuleResult:
     return r4_1(repo, "R10.3")
 
 
-RULES = [r10_1, r10_2, r10_3, r10_4, r10_5]
+def _is_np_empty(repo: Repo, f: Func, e: ast.AST) -> bool:
+    return isinstance(e, ast.Call) and repo.canonical(f.module, e.func) == "numpy.empty"
+
+
+def r10_6(repo: Repo, rule: str = "R10.6", files: Optional[Set[str]] = None, floor: int = 5) -> RuleResult:
+    """A buffer created with np.empty (directly, or as a list of np.empty placeholders) holds garbage until it is
+    written.  The loop that fills it must therefore write its slot on *every* iteration: a store under a condition
+    (with no store on the other arm) leaves the placeholder of the skipped iterations in the result."""
+    rr = RuleResult(rule, "slots of np.empty buffers / placeholder lists are written on every iteration of the filling loop", floor=floor)
+    for f in njit_functions(repo, files):
+        pm = parents_map(f.node)
+        bufs: Dict[str, ast.AST] = {}
+        for n in walk_no_nested(f.node):
+            if isinstance(n, ast.Assign) and len(n.targets) == 1 and isinstance(n.targets[0], ast.Name):
+                v = n.value
+                if _is_np_empty(repo, f, v):
+                    bufs[n.targets[0].id] = n
+                else:
+                    inner = v.args[0] if isinstance(v, ast.Call) and v.args and norm(v.func).endswith("List") else v
+                    if isinstance(inner, ast.ListComp) and _is_np_empty(repo, f, inner.elt):
+                        bufs[n.targets[0].id] = n
+        for b, alloc in bufs.items():
+            stores = []
+            for n in walk_no_nested(f.node):
+                if isinstance(n, ast.Assign) and len(n.targets) == 1 and isinstance(n.targets[0], ast.Subscript):
+                    base = n.targets[0]
+                    while isinstance(base, ast.Subscript):
+                        base = base.value
+                    if isinstance(base, ast.Name) and base.id == b:
+                        stores.append(n)
+            construct = "%s = %s" % (b, short(alloc.value, 50))
+            if not stores:
+                rr.note(f, construct, "no element store found (buffer filled by a callee or by slices): not judged", alloc.lineno)
+                continue
+            bad = None
+            for st in stores:
+                loops = [a for a in ancestors(st, pm) if isinstance(a, (ast.For, ast.While))]
+                if not loops:
+                    continue
+                prev = st
+                for a in ancestors(st, pm):
+                    if a is loops[-1]:
+                        break
+                    if isinstance(a, ast.If):
+                        arm_other = a.orelse if any(prev is x for x in a.body) else a.body
+                        other_stores = [s_ for s_ in stores if any(s_ is x for o in arm_other for x in ast.walk(o))]
+                        if not other_stores:
+                            bad = (st, a)
+                    elif isinstance(a, (ast.Try,)):
+                        bad = (st, a)
+                    prev = a
+            if bad:
+                st, cond = bad
+                rr.bad(f, construct,
+                       "the slot store `%s` (line %d) runs only under `%s`: iterations that skip it leave the uninitialised np.empty "
+                       "placeholder in the result (garbage that differs from call to call)" % (short(st, 50), st.lineno,
+                                                                                             short(cond.test, 40) if isinstance(cond, ast.If) else "try"), st.lineno)
+            else:
+                rr.ok(f, construct, "%d store(s), each executed on every iteration of its loop" % len(stores), alloc.lineno)
+    return rr
+
+
+RULES = [r10_1, r10_2, r10_3, r10_4, r10_5, r10_6]
 
 CLAIM = (
     "R10.1 definite assignment (with the for-loop zero-trip edge) in all njit functions; R10.2 every np.searchsorted "
     "result that indexes the searched array is range-guarded or membership-guarded; R10.3 fixed-capacity accumulators "
     "are re-bound after append (=R4.1); R10.4 affine index bounds for the recognised `for v in range(lo, len(A)-d)` "
-    "shapes; R10.5 prange stores are indexed by the induction variable."
+    "shapes; R10.5 prange stores are indexed by the induction variable; R10.6 slots of np.empty buffers and placeholder "
+    "lists are stored on every iteration of their filling loop (no one-armed conditional around the store)."
 )
 NOT_DECIDED = (
     "indices that are data (window_size_array[i, target_word], baseline_probabilities[idx], token ids beyond a "
